@@ -237,8 +237,26 @@ func runC05(k *kernel.K) {
 		k.Note("  #%d %s %s %s", r.id, r.form, r.spec.Method, r.spec.Target())
 	}
 
+	// Sometimes the tunnel is opened inside another one: a CONNECT to a different authority first,
+	// then - in the clear inside that tunnel - the CONNECT to the target. Whatever follows belongs to
+	// the inner tunnel: its authority is the host of requests that name none.
+	outer := listenerKind != "transparent" && w.Chance(1, 5)
+	innerSent := false
 	if listenerKind == "transparent" {
 		cl.Start()
+	} else if outer {
+		k.Probe("tunnel_inside_another_tunnel")
+		if w.Chance(2, 3) && inner != "plain_http" {
+			// the outer tunnel carries TLS of its own (TLS inside TLS from the inner handshake on).
+			// (Not with plain HTTP in the inner tunnel: those requests are both "decrypted from a
+			// MITM'd tunnel" - the outer one - and "traffic in a tunnel that does not begin with a
+			// TLS handshake"; the property does not say which clause wins, so the cell is not judged.)
+			k.Probe("outer_tunnel_with_tls")
+			cl.OuterCfg = &tls.Config{RootCAs: env.pool, ServerName: "outer.test"}
+			cl.InnerConnect = tg.authority
+			innerSent = true
+		}
+		cl.SendConnect("outer.test:443", "")
 	} else {
 		cl.SendConnect(tg.authority, "")
 	}
@@ -249,6 +267,15 @@ func runC05(k *kernel.K) {
 			return
 		}
 		if !cl.started {
+			if outer && !innerSent {
+				if cl.Connected() {
+					add(kernel.Action{Key: "client sends the inner CONNECT", W: 3, Class: kernel.Actor, Do: func() {
+						innerSent = true
+						cl.SendConnect(tg.authority, "")
+					}})
+				}
+				return
+			}
 			if cl.Connected() {
 				add(kernel.Action{Key: "client start inner protocol", W: 3, Class: kernel.Actor, Do: cl.Start})
 			}
